@@ -5,7 +5,7 @@ state, the re-synthesis after every report, and the decision structure of the sy
 order of the cases, forced-state arbitration), read from the code's shape."""
 import ast
 from ..model import own_nodes, AnalysisError
-from ..paths import removal_sites, factmap, call_text, returns, must_call
+from ..paths import expand_self, removal_sites, factmap, call_text, returns, must_call
 from .. import supstates
 
 OWNED = {'running_identifiers', '_state', 'state', 'forced_state', 'forced_reason', 'expected_exit', 'last_event_mtime'}
@@ -171,10 +171,13 @@ def run(P, R):
     sts = [a for a in own_nodes(u.node) if isinstance(a, ast.Assign) and ast.unparse(a.targets[0]) == 'self.state']
     table = sorted((ast.unparse(a.value), tuple(sorted(tuple(f) for f in fm.at(a)))) for a in sts)
     conf = [c for c in own_nodes(u.node) if isinstance(c, ast.Call) and call_text(c) == 'self._evaluate_conflict']
-    ok = len(conf) == 1 and {tuple(f) for f in fm.at(conf[0])} == {('self.conflicting()', True)}
+    ok = len(conf) == 1 and {(expand_self(u, f[0]), f[1]) for f in fm.at(conf[0])} == \
+        {(expand_self(u, 'self.conflicting()'), True)}
     R.check(r4, ok, 'a conflict is synthesised by _evaluate_conflict', 'synth|conflict', u.loc(),
             'update_status calls _evaluate_conflict under %s' % [sorted(tuple(f) for f in fm.at(c)) for c in conf])
-    noc = ('self.conflicting()', False)
+    noc = (expand_self(u, 'self.conflicting()'), False)
+    table = sorted((v, tuple(sorted((expand_self(u, t) if 'conflicting' in t else t, pol) for t, pol in fs)))
+                   for v, fs in table)
     stopping = ("any((info['state'] == ProcessStates.STOPPING for info in self.info_map.values()))", True)
     want = sorted([
         ("self.info_map[list(self.running_identifiers)[0]]['state']", tuple(sorted([noc, ('self.running_identifiers', True)]))),
@@ -224,8 +227,9 @@ def run(P, R):
         and defs.get('instance_info') == 'self.info_map[identifier]'
     R.check(r5, ok, 'arbitration by the event time of the targeted instance', 'forced|arbitration', fs.loc(),
             'force_state arbitrates with %s / %s' % (vals, defs))
-    rv = [ast.unparse(v) for v, f, n in returns(fs) if v is not None]
-    R.check(r5, rv == ['force_state'], 'force_state tells whether the forced state was applied', 'forced|result', fs.loc(),
+    # what is returned is the arbitration flag itself (returns() lists the assignments of a result local)
+    rv = sorted(ast.unparse(v) for v, f, n in returns(fs) if v is not None)
+    R.check(r5, rv in (['force_state'], sorted(t for t, _ in vals)), 'force_state tells whether the forced state was applied', 'forced|result', fs.loc(),
             'force_state returns %s' % rv)
     rf = P.unit('ProcessStatus.reset_forced_state')
     fmr = factmap(rf)
@@ -237,8 +241,9 @@ def run(P, R):
     R.check(r5, ok, 'the forced state is cleared by any report but a first STOPPED snapshot', 'forced|reset', rf.loc(),
             'reset_forced_state clears under %s' % [sorted(tuple(f) for f in fmr.at(a)) for a in clr])
     ds = P.unit('ProcessStatus.displayed_state')
-    rv = [ast.unparse(v) for v, f, n in returns(ds) if v is not None]
-    R.check(r5, rv == ['self.state if self.forced_state is None else self.forced_state'],
+    rv = sorted((ast.unparse(v), tuple(sorted(tuple(x) for x in f))) for v, f, n in returns(ds) if v is not None)
+    R.check(r5, rv == [('self.forced_state', (('self.forced_state is None', False),)),
+                       ('self.state', (('self.forced_state is None', True),))],
             'the forced state overrides the display while set', 'forced|display', ds.loc(), 'displayed_state returns %s' % rv)
     R.assume('The synthesis as a function over all finite histories is NOT decided; R3-R5 freeze its decision structure '
              '(an edit that changes the structure without changing behaviour is reported as a violation of the frozen '
